@@ -7,13 +7,22 @@ META = {
  "C02": {"technique": "TLC model checking of Replica.tla + TLC trace validation of real-store histories (ReplicaTrace.tla)",
          "text": "TLC exhausts every reachable (offered set, store) of the replica model over a universe with empty, 0xFF-edged and prefix-related keys, markers and value ties, checking store = Kept(offered) and the per-insert pruning obligations; three sensitivity configurations must fail. The real redb store (memory and file) is then driven with seeded histories and every step (result, removed count, full contents) is validated by TLC against the same operators.",
          "note": TB + " Bounded: model universe <= 36 entries, <= 3 offered; implementation histories are sampled, not exhaustive."},
+ "C03": {"technique": "TLC model checking of AcceptModel.tla (message shapes x validity classes) + TLC trace validation of byte-level forgeries on both ingress paths (ReplicaTrace.tla, Prop=C03)",
+         "text": "TLC enumerates every small store x every message of values with all validity-flag combinations and checks that only acceptable entries are stored/announced and the rest is processed as if the bad ones were absent (sensitivity: dropping the emptiness check on the sync path must fail). The real code is offered entries forged through serde (11 tamper classes, malformed emptiness, future bound +/-1us) via insert_remote_entry and inside reconciliation messages; TLC validates result, store, events, and that every stored entry verifies.",
+         "note": TB + " Cryptography itself is trusted, not modelled; ground truth of a forged entry is known by construction."},
+ "C12": {"technique": "TLC model checking of Events.tla + TLC trace validation of subscriber event streams (ReplicaTrace.tla, Prop=C12)",
+         "text": "TLC explores all interleavings of offers with subscribers joining, unsubscribing and dropping receivers and checks each subscriber saw exactly the applied entries while subscribed (two sensitivity configs must fail). On the real replica every subscriber channel is drained after each step and TLC compares the exact event sequence (origin, peer, content status, download flag from the policy).",
+         "note": TB + " Unbounded subscriber channels in the harness; reconciliation-message steps judged only where the store conformed."},
+ "C13": {"technique": "TLC model checking of Replica.tla (HeadsExact) and Heads.tla (encode/news) + TLC trace validation (ReplicaTrace.tla Prop=C13, HeadsTrace.tla)",
+         "text": "TLC checks heads = newest timestamp held over every reachable replica history incl. removal/re-creation, and that the encode mechanism satisfies the stated encode contract for all head sets of <= 4 authors x varint-boundary timestamps x boundary limits (three sensitivity configs must fail). Real code: heads and has_news_for_us after every step of seeded histories; AuthorHeads::encode/decode under ~9 limits per head set with exact encoded length.",
+         "note": TB + " Limits >= 1; timestamps < 2^31 in traces."},
 }
 NOT_APPLICABLE = {
  "C01": "not yet bound (in progress): Session.tla model-checks; session driver pending",
- "C03": "not yet bound (in progress)", "C04": "not yet bound (in progress)", "C05": "not yet bound (in progress)",
+ "C04": "not yet bound (in progress)", "C05": "not yet bound (in progress)",
  "C06": "not yet bound (in progress)", "C07": "not yet bound (in progress)", "C08": "not yet bound (in progress)",
  "C09": "not yet bound (in progress)", "C10": "not yet bound (in progress)", "C11": "not yet bound (in progress)",
- "C12": "not yet bound (in progress)", "C13": "not yet bound (in progress)", "C14": "not yet bound (in progress)",
+ "C14": "not yet bound (in progress)",
  "C15": "not yet bound (in progress)", "C16": "not yet bound (in progress)", "C17": "not yet bound (in progress)",
  "C18": "not yet bound (in progress)",
 }
